@@ -26,7 +26,11 @@ CLAIMED = {
              "when it sorts — with a counterexample when it does not (fix: d7fa6c9). T1 (typed go/packages census, regenerated on every "
              "run): the list of map-range sites, go statements, select statements, time.Now calls and consumers of set.Set.ToSlice in "
              "the consensus packages equals the classified expectation (a new site, or a consumer that stops sorting, breaks the "
-             "obligation); for every map-range site also the writes to variables that outlive an iteration and the early exits. T2: three real app replicas from one genesis executing identical blocks over all custom modules, compared "
+             "obligation); for every map-range site also the writes to variables that outlive an iteration and the early exits. For the "
+             "EVM write-back the class 'sorted' is proved on the model of the code itself (SDBOrder.lean): what commitCtx persists, "
+             "and the state objects it leaves, are the same for every order in which the journal.dirties map delivers its keys, and "
+             "per object for every order of DirtyStorage (C01_commit_independent_of_dirties_order, "
+             "C01_commit_store_independent_of_dirties_order, C01_flush_independent_of_dirty_storage_order). T2: three real app replicas from one genesis executing identical blocks over all custom modules, compared "
              "on app hash, DeliverTx results and validator updates at every height.",
         note="NOT proved: that each site's loop body has the shape of its class (validated by the replica run), and the determinism of "
              "the SDK, IAVL, wasmvm, the go-ethereum interpreter, goroutine scheduling and the Go runtime. Trusted: Lean kernel; "
